@@ -10,6 +10,8 @@ type abortCall struct{}
 
 type obsStateNone struct {
 	script func(slot int, key, msg []byte) []byte
+	off    bool
+	limit  int
 }
 
 var obs obsStateNone
